@@ -79,7 +79,13 @@ where
     let mut index = Vec::new();
     let mut record = Record::default();
 
-    while read_record(reader, buf, &mut record)? != 0 {
+    loop {
+        buf.clear();
+
+        if read_record(reader, buf, &mut record)? == 0 {
+            break;
+        }
+
         index.push(record.clone());
     }
 
